@@ -57,6 +57,11 @@ pub enum Fault {
     Append(Bytes),
     /// delete n bytes
     Cut(Pos, u8),
+    /// add or subtract one to the little-endian integer of width w (1/2/4/8) found at `at`:
+    /// an index or count that was the largest valid one becomes the first invalid one
+    Nudge { at: Pos, w: u8, up: bool },
+    /// copy the w-byte field at `src` over the one at `dst` (an index equal to a count, ...)
+    CopyField { dst: Pos, src: Pos, w: u8 },
 }
 
 impl Fault {
@@ -69,6 +74,8 @@ impl Fault {
             Fault::Splice { .. } => "splice",
             Fault::Append(_) => "append",
             Fault::Cut(..) => "cut",
+            Fault::Nudge { .. } => "nudge",
+            Fault::CopyField { .. } => "copy_field",
         }
     }
     fn apply(&self, b: &mut Vec<u8>, true_len: usize) {
@@ -131,6 +138,36 @@ impl Fault {
                     let s = p.at(len - 1);
                     let e = (s + *n as usize + 1).min(len);
                     b.drain(s..e);
+                }
+            }
+            Fault::Nudge { at, w, up } => {
+                let w = match w {
+                    1 => 1usize,
+                    2 => 2,
+                    8 => 8,
+                    _ => 4,
+                };
+                if len >= w {
+                    let i = at.at(len - w);
+                    let mut le = [0u8; 8];
+                    le[..w].copy_from_slice(&b[i..i + w]);
+                    let v = u64::from_le_bytes(le);
+                    let v = if *up { v.wrapping_add(1) } else { v.wrapping_sub(1) };
+                    b[i..i + w].copy_from_slice(&v.to_le_bytes()[..w]);
+                }
+            }
+            Fault::CopyField { dst, src, w } => {
+                let w = match w {
+                    1 => 1usize,
+                    2 => 2,
+                    8 => 8,
+                    _ => 4,
+                };
+                if len >= w {
+                    let s = src.at(len - w);
+                    let d = dst.at(len - w);
+                    let chunk = b[s..s + w].to_vec();
+                    b[d..d + w].copy_from_slice(&chunk);
                 }
             }
         }
@@ -211,6 +248,8 @@ fn fault() -> BoxedStrategy<Fault> {
         1 => (pos(), pos(), 0u8..24).prop_map(|(dst, src, n)| Fault::Splice { dst, src, n }),
         2 => proptest::collection::vec(byte_val(), 1..20).prop_map(|v| Fault::Append(Bytes(v))),
         1 => (pos(), 0u8..9).prop_map(|(p, n)| Fault::Cut(p, n)),
+        4 => (pos(), proptest::sample::select(vec![1u8, 1, 2, 4, 4, 8]), any::<bool>()).prop_map(|(at, w, up)| Fault::Nudge { at, w, up }),
+        1 => (pos(), pos(), proptest::sample::select(vec![1u8, 2, 4, 8])).prop_map(|(dst, src, w)| Fault::CopyField { dst, src, w }),
     ]
     .boxed()
 }
@@ -1268,6 +1307,126 @@ fn run_reorder_map_open(ctx: &mut Ctx, c: &Case) {
     let _ = std::fs::remove_file(&path);
 }
 
+/// Structure-aware inputs for the reorder-map reader: the case's raw bytes are a decision tape
+/// that is decoded into a header and a list of well-formed entries (single values and
+/// (value, var_uint length) sequences with lengths 0, 1, small, 127/128, non-canonical zero,
+/// huge) whose announced size is the sum of all entries, of all but the first, of all but the
+/// last, off by one, zero or far too large.  Byte-level mutation of a valid file almost never
+/// produces two coordinated fields; this does.
+fn reorder_map_from_tape(ctx: &mut Ctx, t: &[u8]) -> Vec<u8> {
+    fn var_uint(out: &mut Vec<u8>, mut v: u64) {
+        loop {
+            let b = (v & 0x7f) as u8;
+            v >>= 7;
+            if v == 0 {
+                out.push(b);
+                break;
+            }
+            out.push(b | 0x80);
+        }
+    }
+    let t0 = t.first().copied().unwrap_or(0);
+    let sign: i64 = if t0 & 1 == 0 { 1 } else { -1 };
+    let mut body = vec![];
+    let mut lens: Vec<u64> = vec![];
+    for e in t.get(1..).unwrap_or(&[]).chunks(3) {
+        let (k, v, l) = (e[0], *e.get(1).unwrap_or(&0), *e.get(2).unwrap_or(&1));
+        let value: u64 = if k & 0x80 != 0 { (1u64 << 39) - 1 - v as u64 } else { 1000 + v as u64 * 300 };
+        if k % 4 == 0 {
+            body.extend_from_slice(&((value << 1) | 1).to_le_bytes()[..5]);
+            lens.push(1);
+            continue;
+        }
+        body.extend_from_slice(&(value << 1).to_le_bytes()[..5]);
+        let len: u64 = match l % 8 {
+            0 => 0,
+            1 => 1,
+            2 => 2,
+            3 => (l >> 3) as u64,
+            4 => 127,
+            5 => 128,
+            6 => 300,
+            _ => 1 << 35,
+        };
+        if len == 0 {
+            ctx.label("entries_zero_length_sequence");
+            if lens.is_empty() {
+                ctx.label("entries_first_sequence_zero_length");
+            }
+        }
+        if len == 0 && k & 0x20 != 0 {
+            body.extend_from_slice(&[0x80, 0x00]); // non-canonical zero
+        } else {
+            var_uint(&mut body, len);
+        }
+        lens.push(len);
+    }
+    let sum = |x: &[u64]| x.iter().fold(0u64, |a, b| a.saturating_add(*b));
+    let all = sum(&lens);
+    let mode = (t0 >> 1) % 8;
+    let size = match mode {
+        0 | 1 => all,
+        2 => sum(lens.get(1..).unwrap_or(&[])),
+        3 => sum(&lens[..lens.len().saturating_sub(1)]),
+        4 => all.saturating_add(1),
+        5 => all.saturating_sub(1),
+        6 => 0,
+        _ => all.saturating_add(1 << 40),
+    };
+    ctx.label(format!("entries_size_mode={}", ["all", "all", "all_but_first", "all_but_last", "plus1", "minus1", "zero", "huge"][mode as usize]));
+    ctx.label(match lens.len() {
+        0 => "entries=0",
+        1 => "entries=1",
+        2..=4 => "entries=2-4",
+        _ => "entries>=5",
+    });
+    let mut out = size.to_le_bytes().to_vec();
+    out.extend_from_slice(&sign.to_le_bytes());
+    out.extend_from_slice(&body);
+    if t0 & 0x80 != 0 && t0 & 0x40 != 0 {
+        let cut = 1 + (t0 as usize >> 4) % 3;
+        out.truncate(out.len().saturating_sub(cut).max(16));
+        ctx.label("entries_last_cut");
+    }
+    out
+}
+
+fn run_reorder_map_entries(ctx: &mut Ctx, c: &Case) {
+    let Src::Raw(tape) = &c.src else {
+        // the fixed fault enumeration (mutated valid files) is the other cell's business
+        return run_reorder_map_open(ctx, c);
+    };
+    let Some(path) = scratch_file(ctx, "c15-reorder-entries.map") else {
+        ctx.skip("no scratch dir");
+        return;
+    };
+    ctx.label("src=entry_grammar");
+    let bytes = reorder_map_from_tape(ctx, &tape.0);
+    set_key(ctx, &bytes, None, 0);
+    if std::fs::write(&path, &bytes).is_err() {
+        ctx.skip("cannot write scratch file");
+        return;
+    }
+    let r = guard(ctx, "parse", bytes.len(), None, || ZReorderMap::open(&path));
+    if let Some(mut m) = verdict(ctx, true, r) {
+        let _ = guard(ctx, "use", bytes.len(), None, || {
+            let mut k = 0usize;
+            let mut acc = 0usize;
+            while k < 5000 {
+                match m.next() {
+                    Some(v) => acc = acc.wrapping_add(v),
+                    None => break,
+                }
+                k += 1;
+            }
+            let sz = m.size();
+            let _ = m.rewind();
+            (k, acc, sz, m.eof())
+        });
+    }
+    let _ = std::fs::remove_file(&path);
+}
+
 fn run_mmap_vec_open(ctx: &mut Ctx, c: &Case) {
     let payload = c.payload();
     let Some(path) = scratch_file(ctx, "c15-mmapvec.bin") else {
@@ -1841,6 +2000,7 @@ const CELLS: &[(&str, u16, usize)] = &[
     ("dfa_cache_deser", 120, 900),
     ("zipoffset_load", 200, 2400),
     ("reorder_map_open", 80, 1600),
+    ("reorder_map_entries", 80, 1600),
     ("mmap_vec_open", 120, 1600),
     ("varint_decode", 80, 2400),
     ("varint_leb128", 120, 1600),
@@ -1906,6 +2066,7 @@ fn dispatch(ctx: &mut Ctx, cell: &str, c: &Case) {
         "dfa_cache_deser" => run_dfa_cache_deser(ctx, c),
         "zipoffset_load" => run_zipoffset_load(ctx, c),
         "reorder_map_open" => run_reorder_map_open(ctx, c),
+        "reorder_map_entries" => run_reorder_map_entries(ctx, c),
         "mmap_vec_open" => run_mmap_vec_open(ctx, c),
         "varint_decode" => run_varint_decode(ctx, c),
         "simd_varint_batch" => run_simd_varint_batch(ctx, c),
@@ -1933,7 +2094,7 @@ fn dispatch(ctx: &mut Ctx, cell: &str, c: &Case) {
     }
 }
 
-/// Fixed fault enumeration per cell: truncation of one fixed valid encoding at every length
+/// Fixed fault enumeration per cell: every byte of the first 256 / last 24 nudged by +-1; truncation of one fixed valid encoding at every length
 /// 0..=255 and at the last 24 positions, every aligned 2/4/8-byte window of the first 96 bytes
 /// and of the trailer maximised (0xFF.., 0x7F.., len+1, len-1), and the untouched encoding
 /// with every expected-length argument.
@@ -1957,6 +2118,16 @@ fn enumerated_faults() -> Vec<(Vec<Fault>, LenArg)> {
             }
         }
     }
+    // every byte of the first 256 and of the last 24 nudged by +-1 (the low byte of every
+    // little-endian index / count / length field: largest valid value -> first invalid one)
+    for up in [true, false] {
+        for k in 0..=255u8 {
+            v.push((vec![Fault::Nudge { at: Pos::A(k), w: 1, up }], LenArg::True));
+        }
+        for k in 1..=24u8 {
+            v.push((vec![Fault::Nudge { at: Pos::E(k), w: 1, up }], LenArg::True));
+        }
+    }
     for la in [LenArg::True, LenArg::Zero, LenArg::One, LenArg::Plus1, LenArg::Minus1, LenArg::Double, LenArg::Mi1, LenArg::Mi128, LenArg::U32Max, LenArg::UsizeMax] {
         v.push((vec![], la));
         v.push((vec![Fault::Trunc(Pos::R(32768))], la));
@@ -1972,7 +2143,7 @@ impl Prop for P {
         "fault_enumeration"
     }
     fn rule(&self) -> &'static str {
-        "one cell per parser; per cell (a) mutated valid encodings: the matching encoder runs inside the worker on a small generated seed payload, then 0-3 generated faults (truncate, substitute byte, flip bit, overwrite an aligned/unaligned 2/4/8-byte window with 0xFF../0x7F../len+1/len-1/0/0x80.., splice, append garbage, cut) and one of ten expected-length arguments (true, 0, 1, true+-1, 2*true+3, 2^20, 2^27, 2^32-1, usize::MAX); (b) arbitrary bytes <= 4 KiB; plus a fixed enumeration per cell (truncation at every length 0..=255 and the last 24 positions, every 2/4/8-byte window of the first 96 bytes and the trailer maximised, every length argument). Non-trivial = the input passes the parser's first magic/length gate (cheap per-cell predicate) or the parser returned Ok or panicked; distinct by hash of (cell, input bytes, length argument, entry point)"
+        "one cell per parser; per cell (a) mutated valid encodings: the matching encoder runs inside the worker on a small generated seed payload, then 0-3 generated faults (truncate, substitute byte, flip bit, overwrite an aligned/unaligned 2/4/8-byte window with 0xFF../0x7F../len+1/len-1/0/0x80.., splice, append garbage, cut, add/subtract one to a 1/2/4/8-byte little-endian field, copy one field over another) and one of ten expected-length arguments (true, 0, 1, true+-1, 2*true+3, 2^20, 2^27, 2^32-1, usize::MAX); (b) arbitrary bytes <= 4 KiB; (c) for the reorder-map reader a grammar of well-formed entries (single / sequence, lengths 0, 1, small, 127, 128, non-canonical zero, 2^35) with an announced size that is the sum of all entries, of all but the first or last, off by one, zero or far too large; plus a fixed enumeration per cell (every byte of the first 256 and last 24 nudged by +-1, truncation at every length 0..=255 and the last 24 positions, every 2/4/8-byte window of the first 96 bytes and the trailer maximised, every length argument). Non-trivial = the input passes the parser's first magic/length gate (cheap per-cell predicate) or the parser returned Ok or panicked; distinct by hash of (cell, input bytes, length argument, entry point)"
     }
     fn assumptions(&self) -> Vec<String> {
         vec![
@@ -1997,7 +2168,12 @@ impl Prop for P {
             let cases = tier.pick(quick, quick * 30);
             let raw_max = tier.pick(4096, 4096);
             let seed_max = tier.pick(max as usize, (max as usize * 4).min(4000)) as u16;
-            let s = prop_oneof![3 => mutated(seed_max), 1 => arbitrary(raw_max)];
+            let s = if cell == "reorder_map_entries" {
+                // the raw bytes are a decision tape (see reorder_map_from_tape)
+                arbitrary(40)
+            } else {
+                prop_oneof![3 => mutated(seed_max), 1 => arbitrary(raw_max)].boxed()
+            };
             v.push(Plan::new(cell, cases, cases * 15 / 100, s));
         }
         v
